@@ -202,11 +202,6 @@ func (s *formatFMP4Segment) closeCurPart() error {
 }
 
 func (s *formatFMP4Segment) write(track *formatFMP4Track, sample *formatFMP4Sample, dts time.Duration) error {
-	endDTS := dts + timestampToDuration(int64(sample.Duration), int(track.initTrack.TimeScale))
-	if endDTS > s.endDTS {
-		s.endDTS = endDTS
-	}
-
 	if s.curPart == nil {
 		s.curPart = &formatFMP4Part{
 			maxPartSize:     s.f.ri.maxPartSize,
@@ -234,5 +229,16 @@ func (s *formatFMP4Segment) write(track *formatFMP4Track, sample *formatFMP4Samp
 		s.nextPartNumber++
 	}
 
-	return s.curPart.write(track, sample, dts)
+	err := s.curPart.write(track, sample, dts)
+	if err != nil {
+		return err
+	}
+
+	// update the duration of the segment only if the sample has been written
+	endDTS := dts + timestampToDuration(int64(sample.Duration), int(track.initTrack.TimeScale))
+	if endDTS > s.endDTS {
+		s.endDTS = endDTS
+	}
+
+	return nil
 }
